@@ -2,9 +2,9 @@
 (* Property C12: df_fillna / nona fill or drop exactly the missing cells, arrays and pandas     *)
 (* alike.                                                                                       *)
 (*                                                                                              *)
-(* A cell is an integer: NaN (= -1) is the missing value, every other cell is a value >= 0.  In the model-      *)
-(* checking universe the value of the cell in row i of column j is the position code 100*j + i, *)
-(* so the provenance of a filled cell can be read off the result.                               *)
+(* A cell is an integer: NaN (= -1) is the missing value, every other cell is a value >= 0.     *)
+(* In the model-checking universe the value of the cell in row i of column j is the position    *)
+(* code 100*j + i, so the provenance of a filled cell can be read off the result.               *)
 (* A frame is  [rows |-> sequence of row labels, cols |-> sequence of columns]  (every column a *)
 (* sequence of cells as long as rows).  A float vector is a frame with one column: the property *)
 (* makes no difference between a vector and a one-column frame, and neither does this module.   *)
